@@ -83,23 +83,27 @@ inline lib::Packet makeStatusUpdate(const StatusOp& op, size_t position)
     const uint8_t flags = static_cast<uint8_t>((position * 5) & 0x33);
     p.setDeviceId(op.dev);
     p.setStreamId(static_cast<uint8_t>(3 + position % 2));
-    p.setTimestamp(position);
-    p.setVendorId(static_cast<uint16_t>(position));
+    // header fields follow the position but not monotonically: a later update may carry a lower timestamp, counter or vendor id
+    // than an earlier one ("latest" means latest call, not largest field)
+    const uint64_t ts = mix(static_cast<uint32_t>(position), 5) % 100000u;
+    const uint16_t vendor = static_cast<uint16_t>(mix(static_cast<uint32_t>(position), 7));
+    p.setTimestamp(ts);
+    p.setVendorId(vendor);
     p.setVersion(version);
     p.setCommonFlags(flags);
-    p.setSequenceCounter(static_cast<uint16_t>(position * 3));
+    p.setSequenceCounter(static_cast<uint16_t>(mix(static_cast<uint32_t>(position), 6)));
     if (msgType == wire::kMtData)
         p.setInterfaceId(op.iface);
     if (op.viaDecoder && msgType != 0 && ptype != 0)
     {
         // the real use: packets come out of the decoder
         Bytes frame;
-        wire::CmpHdr h{version, 0, op.dev, msgType, static_cast<uint8_t>(3 + position % 2), static_cast<uint16_t>(position * 3)};
+        wire::CmpHdr h{version, 0, op.dev, msgType, static_cast<uint8_t>(3 + position % 2), static_cast<uint16_t>(mix(static_cast<uint32_t>(position), 6))};
         wire::putCmpHdr(frame, h);
         wire::MsgHdr mh;
-        mh.timestamp = position;
+        mh.timestamp = ts;
         mh.flags = flags;
-        mh.idWord = msgType == wire::kMtData ? op.iface : static_cast<uint32_t>(position & 0xFFFF);
+        mh.idWord = msgType == wire::kMtData ? op.iface : static_cast<uint32_t>(vendor);
         mh.payloadType = ptype;
         mh.length = static_cast<uint16_t>(raw.size());
         wire::putMsgHdr(frame, mh);
